@@ -273,7 +273,37 @@ def typical_tree(rng):
             if k and rng.random() < 0.2:
                 sizes = [rng.choice([len(d), len(d) + 1, 0, 0xFFFFFFFF, 0x80000000]) for _, d in images]
                 exact = all(s == len(d) for s, (_, d) in zip(sizes, images))
-            grp_dir.append((gname, RDir([(lang(), RData(group_blob(kind, images, first, sizes), 0))], 0)))
+            blob = group_blob(kind, images, first, sizes)
+            gnode = RDir([(lang(), RData(blob, 0))], 0)
+            if rng.random() < 0.25:
+                # group directories that are NOT of the resource compiler's shape (Spec: `Node.groups`, `parseGroup`)
+                exact = False
+                shape = rng.choice(["data", "empty", "nested", "two_langs", "magic", "reserved", "short", "long", "cut", "count"])
+                if shape == "data":
+                    gnode = RData(blob, 0)                                             # UnDataEntry
+                elif shape == "empty":
+                    gnode = RDir([], 0)                                                # NotFound
+                elif shape == "nested":
+                    gnode = RDir([(lang(), RDir([(1, RData(blob, 0))], 0))], 0)        # UnDirectory
+                elif shape == "two_langs":
+                    gnode = RDir([(1031, RData(blob, 0)), (1033, RData(b"not a group", 0))], 0)
+                    exact = sizes is None or all(s == len(d) for s, (_, d) in zip(sizes, images))
+                else:
+                    bb = bytearray(blob)
+                    if shape == "magic":
+                        struct.pack_into("<H", bb, 2, rng.choice([0, 3, 0x101, 0xFFFF]))   # BadMagic
+                    elif shape == "reserved":
+                        struct.pack_into("<H", bb, 0, rng.choice([1, 0x100, 0xFFFF]))      # BadMagic
+                    elif shape == "short":
+                        bb = bb[:rng.choice([0, 1, 5])]                                    # Bounds
+                    elif shape == "long":
+                        bb += bytes(rng.choice([1, 2, 14]))                                # Bounds
+                    elif shape == "cut":
+                        bb = bb[:max(6, len(bb) - rng.choice([1, 2, 14]))]                 # Bounds unless nothing was cut
+                    elif shape == "count":
+                        struct.pack_into("<H", bb, 4, (k + rng.choice([1, 0xFFFF])) & 0xFFFF)   # Bounds
+                    gnode = RDir([(lang(), RData(bytes(bb), 0))], 0)
+            grp_dir.append((gname, gnode))
             # `grp_write <name>` takes the first group of that name: only that one has a known answer
             groups.append((kind, gname, ico_file(kind, images) if exact and gname not in seen else None))
             seen.add(gname)
